@@ -225,6 +225,36 @@ CHECKS = {
 PENDING = {}
 
 
+# later growth, appended to the level text of the property (see DESIGN.md section 0)
+EXTRA = {
+    'C01': ' Port widths beyond 32 bits (33/64, values as limb vectors) and tops holding two configurations of one class are included; '
+           'a text that is not closed is reported as such by Trace_Verilog instead of being executed.',
+    'C03': ' Pairs of configurations of the same class in one top (both orders) and designs with two clock domains are part of the families.',
+    'C04': ' Part D builds netlists in two phases (cells added at the top level or deep inside an existing block after the first '
+           'getSimulator()) and judges the second getSimulator() + clk(1) like a one-shot build.',
+    'C05': ' Every recorded clk(n) call also carries what a simulator listener saw (one notification per cycle, the values after each cycle), '
+           'checked against Kernel!CyclesSeen.',
+    'C06': ' WireAPI.tla models Wire.put/prepare/settle under script-driven behavioural drivers (several prepare() calls per clock call with '
+           'arbitrary integers); one history per transition is replayed on real Wires.',
+    'C07': ' MC_NetComb executes the extracted leaf netlist of every block for all inputs (binding X, confirmed on the real block); '
+           'LibraryWide.tla gives limb-vector references for 31..64 bit ports (tied to Library.tla on all small tables).',
+    'C08': ' MC_NetComb executes the extracted leaf netlist of every block for all inputs (binding X, confirmed on the real block); '
+           'LibraryWide.tla gives limb-vector references for 31..64 bit ports (tied to Library.tla on all small tables).',
+    'C14': ' Formats of 7..64 bit total width are included (integer references up to 30 bit, LibraryWide limb references beyond), with '
+           'operand pairs that differ by exactly one power of two; MC_NetComb executes the extracted netlists for all inputs.',
+    'C09': ' MC_NetSeq runs the extracted leaf netlist of each block in product with its reference machine over all reachable product '
+           'states (inputs nondeterministic at every edge); disagreeing histories are replayed on the real block.',
+    'C10': ' Distinct clock drivers that share a name are part of the generated designs.',
+    'C15': ' Registers or the recorder may sit on a second, ungated clock driver.',
+    'C16': ' Every step also records the observation with the inputs applied before the edge (READY follows active combinationally, '
+           'registers and stream outputs hold until the edge).',
+    'C18': ' The result relation includes the geometric connectivity of the drawn figure (net segments plus the line a pass-through draws) '
+           'and that every pin lies on it; witness netlists of repaired defects are always included.',
+    'C19': ' The circuits contain a transpiled behavioural block with constructor-initialised state and (circuit 2) a second clock domain.',
+    'C20': ' The encoder inputs are disturbed after the start pulse; the run loop is bounded by what a correct decoder needs.',
+}
+
+
 def main():
     props = [json.loads(l) for l in (VERIF / 'properties.jsonl').read_text().splitlines() if l.strip()]
     checks = []
@@ -233,6 +263,7 @@ def main():
         pid = p['id']
         if pid in CHECKS:
             cat, text, note, tech, ref = CHECKS[pid]
+            text = text + EXTRA.get(pid, '')
             checks.append({
                 'property_id': pid,
                 'quick_cmd': './check %s --tier quick' % pid,
